@@ -63,6 +63,10 @@ struct TDigestMut {
 k : u16 , reverse_merge : bool , min : f64 , max : f64 , centroids : Vec < Centroid > , centroids_weight : u64 , centroids_capacity : usize , buffer : Vec < f64 > , }
 
 
+struct TDigest {
+k : u16 , reverse_merge : bool , min : f64 , max : f64 , centroids : Vec < Centroid > , centroids_weight : u64 , }
+
+
 struct TDigestView < 'a > {
 min : f64 , max : f64 , centroids : & 'a [ Centroid ] , centroids_weight : u64 , }
 
@@ -210,6 +214,7 @@ impl TDigestMut {
         &&& wsum(self.centroids@) == self.centroids_weight
         &&& self.total() <= u64::MAX
     }
+    spec fn empty(&self) -> bool { self.centroids@.len() == 0 && self.buffer@.len() == 0 }
     spec fn same_cfg(&self, o: &TDigestMut) -> bool { self.k == o.k && self.centroids_capacity == o.centroids_capacity }
 
     fn make ( k : u16 , reverse_merge : bool , min : f64 , max : f64 , mut centroids : Vec < Centroid > , centroids_weight : u64 , mut buffer : Vec < f64 > , ) -> ( r : Self ) requires k >= 10 ensures r . cfg_ok ( ) , r . k == k , r . centroids @ == centroids @ , r . buffer @ == buffer @ , r . centroids_weight == centroids_weight , r . reverse_merge == reverse_merge , {
@@ -227,7 +232,8 @@ k , reverse_merge , min , max , centroids , centroids_weight , centroids_capacit
 }
 
 
-    fn update ( & mut self , value : f64 ) requires old ( self ) . wf ( ) , old ( self ) . total ( ) < u64 :: MAX ensures final ( self ) . wf ( ) , final ( self ) . same_cfg ( old ( self ) ) ,
+    fn update ( & mut self , value : f64 ) requires old ( self ) . wf ( ) , old ( self ) . total ( ) < u64 :: MAX ensures
+/*@C10.update_keeps_invariant*/ final ( self ) . wf ( ) , final ( self ) . same_cfg ( old ( self ) ) ,
 /*@C10.nonfinite_ignored*/ ! f_finite ( value ) ==> * final ( self ) == * old ( self ) ,
 /*@C10.total_weight_counts_finite*/ f_finite ( value ) ==> final ( self ) . total ( ) == old ( self ) . total ( ) + 1 ,
 /*@C10.buffer_bound*/ final ( self ) . buffer @ . len ( ) <= final ( self ) . centroids_capacity * 4 , {
@@ -245,6 +251,23 @@ self . max = self . max . max ( value ) ;
 
     fn is_empty ( & self ) -> ( r : bool ) ensures r == ( self . centroids @ . len ( ) == 0 && self . buffer @ . len ( ) == 0 ) {
 self . centroids . is_empty ( ) && self . buffer . is_empty ( ) }
+
+
+
+    fn min_value ( & self ) -> ( r : Option < f64 > ) ensures r is None <==> self . empty ( ) , r matches Some ( v ) ==> v == self . min {
+if self . is_empty ( ) {
+None }
+else {
+Some ( self . min ) }
+}
+
+
+    fn max_value ( & self ) -> ( r : Option < f64 > ) ensures r is None <==> self . empty ( ) , r matches Some ( v ) ==> v == self . max {
+if self . is_empty ( ) {
+None }
+else {
+Some ( self . max ) }
+}
 
 
     fn total_weight ( & self ) -> ( r : u64 ) requires self . total ( ) <= u64 :: MAX ensures
@@ -308,13 +331,41 @@ assert ( other . centroids @ . take ( other . centroids @ . len ( ) as int ) =~=
 self . do_merge ( tmp , self . buffer . len ( ) as u64 + other . total_weight ( ) ) }
 
 
+
+    fn view ( & mut self ) -> ( r : TDigestView < '_ > ) requires old ( self ) . wf ( ) ensures r . centroids @ == final ( self ) . centroids @ , r . centroids_weight == final ( self ) . centroids_weight , final ( self ) . wf ( ) , final ( self ) . same_cfg ( old ( self ) ) , final ( self ) . total ( ) == old ( self ) . total ( ) , final ( self ) . buffer @ . len ( ) == 0 , ! old ( self ) . empty ( ) ==> final ( self ) . centroids @ . len ( ) >= 1 , {
+self . compress ( ) ;
+TDigestView {
+min : self . min , max : self . max , centroids : & self . centroids , centroids_weight : self . centroids_weight , }
+}
+
+
+    fn cdf ( & mut self , split_points : & [ f64 ] ) -> ( r : Option < Vec < f64 >> ) requires old ( self ) . wf ( ) , split_points @ . len ( ) == 1 ==> ! f_is_nan ( split_points @ [ 0 ] ) , forall | i : int | 0 <= i < split_points @ . len ( ) - 1 ==> f_lt ( # [ trigger ] split_points @ [ i ] , split_points @ [ i + 1 ] ) , ensures final ( self ) . wf ( ) , final ( self ) . total ( ) == old ( self ) . total ( ) ,
+/*@C10.cdf_shape*/ r is None <==> old ( self ) . empty ( ) ,
+/*@C10.cdf_pmf_len*/ r matches Some ( v ) ==> v @ . len ( ) == split_points @ . len ( ) + 1 , {
+check_split_points ( split_points ) ;
+if self . is_empty ( ) {
+return None ;
+}
+self . view ( ) . cdf ( split_points ) }
+
+
+    fn pmf ( & mut self , split_points : & [ f64 ] ) -> ( r : Option < Vec < f64 >> ) requires old ( self ) . wf ( ) , split_points @ . len ( ) == 1 ==> ! f_is_nan ( split_points @ [ 0 ] ) , forall | i : int | 0 <= i < split_points @ . len ( ) - 1 ==> f_lt ( # [ trigger ] split_points @ [ i ] , split_points @ [ i + 1 ] ) , ensures final ( self ) . wf ( ) , final ( self ) . total ( ) == old ( self ) . total ( ) ,
+/*@C10.pmf_shape*/ r is None <==> old ( self ) . empty ( ) ,
+/*@C10.cdf_pmf_len*/ r matches Some ( v ) ==> v @ . len ( ) == split_points @ . len ( ) + 1 , {
+check_split_points ( split_points ) ;
+if self . is_empty ( ) {
+return None ;
+}
+self . view ( ) . pmf ( split_points ) }
+
+
     fn is_single_value ( & self ) -> ( r : bool ) requires self . total ( ) <= u64 :: MAX ensures r == ( self . total ( ) == 1 ) {
 self . total_weight ( ) == 1 }
 
 
     fn compress ( & mut self ) requires old ( self ) . wf ( ) ensures final ( self ) . wf ( ) , final ( self ) . same_cfg ( old ( self ) ) ,
 /*@C10.compress_keeps_total*/ final ( self ) . total ( ) == old ( self ) . total ( ) ,
-/*@C10.compress_empties_buffer*/ final ( self ) . buffer @ . len ( ) == 0 , old ( self ) . buffer @ . len ( ) == 0 ==> * final ( self ) == * old ( self ) , {
+/*@C10.compress_empties_buffer*/ final ( self ) . buffer @ . len ( ) == 0 , old ( self ) . buffer @ . len ( ) == 0 ==> * final ( self ) == * old ( self ) , ! old ( self ) . empty ( ) ==> final ( self ) . centroids @ . len ( ) >= 1 , {
 if self . buffer . is_empty ( ) {
 return ;
 }
@@ -371,7 +422,8 @@ self . centroids . push ( buffer [ 0 ] ) ;
 num_centroids += 1 ;
 let mut current = 1 ;
 let mut weight_so_far = 0. ;
-while current < len invariant len == buffer @ . len ( ) , 1 <= current <= len , num_centroids == self . centroids @ . len ( ) , 1 <= num_centroids <= current , self . cfg_ok ( ) , self . same_cfg ( old ( self ) ) , self . centroids_weight == old ( self ) . centroids_weight + weight , self . buffer == old ( self ) . buffer , self . reverse_merge == old ( self ) . reverse_merge ,
+while current < len invariant len == buffer @ . len ( ) , 1 <= current <= len , num_centroids == self . centroids @ . len ( ) , 1 <= num_centroids <= current , self . cfg_ok ( ) , self . same_cfg ( old ( self ) ) ,
+/*@C10.centroids_weight_adds*/ self . centroids_weight == old ( self ) . centroids_weight + weight , self . buffer == old ( self ) . buffer , self . reverse_merge == old ( self ) . reverse_merge ,
 /*@C10.weights_conserved*/ wsum ( self . centroids @ ) + wsum ( buffer @ . subrange ( current as int , len as int ) ) == self . centroids_weight , decreases len - current {
 proof {
 axiom_float_total ( ) ;
@@ -428,6 +480,39 @@ self . buffer . clear ( ) ;
 
 }
 
+
+impl TDigest {
+    spec fn wf(&self) -> bool { self.k >= 10 && wsum(self.centroids@) == self.centroids_weight }
+
+    fn total_weight ( & self ) -> ( r : u64 ) ensures
+/*@C10.total_weight*/ r == self . centroids_weight {
+self . centroids_weight }
+
+
+    fn view ( & self ) -> ( r : TDigestView < '_ > ) ensures r . centroids @ == self . centroids @ , r . centroids_weight == self . centroids_weight {
+TDigestView {
+min : self . min , max : self . max , centroids : & self . centroids , centroids_weight : self . centroids_weight , }
+}
+
+
+    fn cdf ( & self , split_points : & [ f64 ] ) -> ( r : Option < Vec < f64 >> ) requires split_points @ . len ( ) == 1 ==> ! f_is_nan ( split_points @ [ 0 ] ) , forall | i : int | 0 <= i < split_points @ . len ( ) - 1 ==> f_lt ( # [ trigger ] split_points @ [ i ] , split_points @ [ i + 1 ] ) , ensures
+/*@C10.cdf_shape*/ r is None <==> self . centroids @ . len ( ) == 0 ,
+/*@C10.cdf_pmf_len*/ r matches Some ( v ) ==> v @ . len ( ) == split_points @ . len ( ) + 1 , {
+self . view ( ) . cdf ( split_points ) }
+
+
+    fn pmf ( & self , split_points : & [ f64 ] ) -> ( r : Option < Vec < f64 >> ) requires split_points @ . len ( ) == 1 ==> ! f_is_nan ( split_points @ [ 0 ] ) , forall | i : int | 0 <= i < split_points @ . len ( ) - 1 ==> f_lt ( # [ trigger ] split_points @ [ i ] , split_points @ [ i + 1 ] ) , ensures
+/*@C10.pmf_shape*/ r is None <==> self . centroids @ . len ( ) == 0 ,
+/*@C10.cdf_pmf_len*/ r matches Some ( v ) ==> v @ . len ( ) == split_points @ . len ( ) + 1 , {
+self . view ( ) . pmf ( split_points ) }
+
+
+    fn unfreeze ( self ) -> ( r : TDigestMut ) requires self . wf ( ) ensures r . wf ( ) ,
+/*@C10.unfreeze_keeps_total*/ r . total ( ) == self . centroids_weight , r . k == self . k , r . centroids @ == self . centroids @ , {
+TDigestMut :: make ( self . k , self . reverse_merge , self . min , self . max , self . centroids , self . centroids_weight , vec! [ ] , ) }
+
+}
+
 impl TDigestView<'_> {
     #[verifier::external_body]
     fn rank(&self, value: f64) -> (r: Option<f64>)
@@ -436,11 +521,12 @@ impl TDigestView<'_> {
     { unimplemented!() }
 
     fn pmf ( & self , split_points : & [ f64 ] ) -> ( r : Option < Vec < f64 >> ) requires split_points @ . len ( ) == 1 ==> ! f_is_nan ( split_points @ [ 0 ] ) , forall | i : int | 0 <= i < split_points @ . len ( ) - 1 ==> f_lt ( # [ trigger ] split_points @ [ i ] , split_points @ [ i + 1 ] ) , ensures
-/*@C10.pmf_shape*/ r is None <==> self . centroids @ . len ( ) == 0 , r matches Some ( v ) ==> v @ . len ( ) == split_points @ . len ( ) + 1 , {
+/*@C10.pmf_shape*/ r is None <==> self . centroids @ . len ( ) == 0 ,
+/*@C10.cdf_pmf_len*/ r matches Some ( v ) ==> v @ . len ( ) == split_points @ . len ( ) + 1 , {
 let mut buckets = self . cdf ( split_points ) ? ;
 let mut vx_n1 = buckets . len ( ) ;
 let vx_lo1 = 1 ;
-while vx_n1 > vx_lo1 invariant buckets @ . len ( ) == split_points @ . len ( ) + 1 , vx_n1 <= buckets @ . len ( ) , vx_lo1 == 1 , decreases vx_n1 {
+while vx_n1 > vx_lo1 invariant buckets @ . len ( ) == split_points @ . len ( ) + 1 , vx_n1 <= buckets @ . len ( ) , vx_lo1 >= 1 , decreases vx_n1 {
 vx_n1 -= 1 ;
 let i = vx_n1 ;
 proof {
@@ -452,7 +538,8 @@ Some ( buckets ) }
 
 
     fn cdf ( & self , split_points : & [ f64 ] ) -> ( r : Option < Vec < f64 >> ) requires split_points @ . len ( ) == 1 ==> ! f_is_nan ( split_points @ [ 0 ] ) , forall | i : int | 0 <= i < split_points @ . len ( ) - 1 ==> f_lt ( # [ trigger ] split_points @ [ i ] , split_points @ [ i + 1 ] ) , ensures
-/*@C10.cdf_shape*/ r is None <==> self . centroids @ . len ( ) == 0 , r matches Some ( v ) ==> v @ . len ( ) == split_points @ . len ( ) + 1 , {
+/*@C10.cdf_shape*/ r is None <==> self . centroids @ . len ( ) == 0 ,
+/*@C10.cdf_pmf_len*/ r matches Some ( v ) ==> v @ . len ( ) == split_points @ . len ( ) + 1 , {
 check_split_points ( split_points ) ;
 if self . centroids . is_empty ( ) {
 return None ;
